@@ -1006,6 +1006,10 @@ type corpusT struct {
 		Note   string  `json:"note"`
 		Chunks [][]Seg `json:"chunks"`
 	} `json:"svg"`
+	Ops []struct {
+		Note string  `json:"note"`
+		Ops  []DxfOp `json:"ops"`
+	} `json:"dxfops"`
 }
 
 func finiteT(ch [][]Tri) bool {
@@ -1033,7 +1037,38 @@ func checkC15(c *Ctx, r *Report) error {
 	csMB := &Cases{Kind: "mb", Imports: imp, Type: "Export.mb_case", Fn: "Export.mismatches_mb", PerShard: 40}
 	csDXF := &Cases{Kind: "dxf", Imports: imp, Type: "Export.dxf_case", Fn: "Export.mismatches_dxf", PerShard: 40}
 	csSVG := &Cases{Kind: "svg", Imports: imp, Type: "Export.svg_case", Fn: "Export.mismatches_svg", PerShard: 40}
+	impOps := "From Coq Require Import String.\nFrom Sdfx Require Import Io.Export Io.ExportOps.\nOpen Scope Q_scope."
+	csOPS := &Cases{Kind: "ops", Imports: impOps, Type: "ExportOps.ops_case", Fn: "ExportOps.mismatches_ops", PerShard: 40}
 	id := 0
+
+	opsCase := func(stratum string, ops []DxfOp) {
+		if !validOps(ops) {
+			return
+		}
+		id++
+		key := keyOf("dxfops", ops)
+		nseg := 0
+		for _, o := range ops {
+			nseg += len(segsOf(o))
+		}
+		r.Case("dxf-object-ops/"+stratum, key, nseg >= 1)
+		obs, bad := checkDXFOps(dir, ops)
+		if id%31 == 4 {
+			r.Sample(map[string]interface{}{"kind": "dxfops", "stratum": stratum, "ops": ops, "violations": bad})
+		}
+		if len(bad) > 0 {
+			min := shrinkOps(ops, func(o []DxfOp) bool { _, b := checkDXFOps(dir, o); return len(b) > 0 })
+			_, mb := checkDXFOps(dir, min)
+			if len(mb) == 0 {
+				min, mb = ops, bad
+			}
+			r.Violate(keyOf("dxfops", min), "DXF (NewDXF + operation sequence + Save): "+mb[0], map[string]interface{}{"kind": "dxfops", "ops": min})
+		}
+		if obs == nil && len(bad) > 0 {
+			obs = []entObs{{layer: "unreadable", v: [6]*big.Int{big.NewInt(-1), big.NewInt(0), big.NewInt(0), big.NewInt(0), big.NewInt(0), big.NewInt(0)}}}
+		}
+		csOPS.Add(opsCaseTerm(id, ops, obs))
+	}
 
 	mfCase := func(stratum string, chunks [][]Tri) {
 		id++
@@ -1111,12 +1146,12 @@ func checkC15(c *Ctx, r *Report) error {
 	}
 
 	writeAll := func() error {
-		for _, cs := range []*Cases{csMF, csMB, csDXF, csSVG} {
+		for _, cs := range []*Cases{csMF, csMB, csDXF, csSVG, csOPS} {
 			if err := cs.Write(c.Out); err != nil {
 				return err
 			}
 		}
-		r.Coverage["cases_in_coq"] = map[string]int{"mf": csMF.Len(), "mb": csMB.Len(), "dxf": csDXF.Len(), "svg": csSVG.Len()}
+		r.Coverage["cases_in_coq"] = map[string]int{"mf": csMF.Len(), "mb": csMB.Len(), "dxf": csDXF.Len(), "svg": csSVG.Len(), "ops": csOPS.Len()}
 		return nil
 	}
 	fillReport(r)
@@ -1129,6 +1164,7 @@ func checkC15(c *Ctx, r *Report) error {
 					Kind    string          `json:"kind"`
 					Variant int             `json:"variant"`
 					Chunks  json.RawMessage `json:"chunks"`
+					Ops     []DxfOp         `json:"ops"`
 				} `json:"input"`
 			} `json:"failing_inputs"`
 		}
@@ -1141,6 +1177,8 @@ func checkC15(c *Ctx, r *Report) error {
 		}
 		for _, f := range rp.FailingInputs {
 			switch f.Input.Kind {
+			case "dxfops":
+				opsCase("replay", f.Input.Ops)
 			case "mf":
 				var ch [][]Tri
 				if err := json.Unmarshal(f.Input.Chunks, &ch); err != nil {
@@ -1188,6 +1226,10 @@ func checkC15(c *Ctx, r *Report) error {
 		}
 	}
 
+	for _, e := range corpus.Ops {
+		opsCase("corpus", e.Ops)
+	}
+
 	// ---- generated
 	nMF := TierN(c.Tier, 600, 6000, 1500)
 	for k := 0; k < nMF; k++ {
@@ -1216,11 +1258,27 @@ func checkC15(c *Ctx, r *Report) error {
 		st, ch := genSegs(rng, k)
 		svgCase(st, (k/2)%3, ch)
 	}
+	// chains of end-to-end collinear segments through every DXF and SVG entry point
+	nChain := TierN(c.Tier, 90, 1800, 360)
+	for k := 0; k < nChain; k++ {
+		st, ch := genChain(rng, k)
+		if k%2 == 0 {
+			svgCase(st, (k/2)%3, ch)
+		} else {
+			dxfCase(st, (k/2)%3, ch)
+		}
+	}
+	// histories of one DXF drawing object
+	nOps := TierN(c.Tier, 160, 3000, 600)
+	for k := 0; k < nOps; k++ {
+		st, ops := genOps(rng, k)
+		opsCase(st, ops)
+	}
 	return writeAll()
 }
 
 func fillReport(r *Report) {
-	r.Rule = "3mf: triangle lists built from a vertex pool (shared, duplicate, degenerate, winding-reversed triangles; sizes 0, 1, 2..12, 20..90, 257..700; Write chunkings: one call, one per call, around 127/128/129/255/256/257, random 0..7) in eight magnitude classes (dyadic grid, arbitrary float64, tiny incl. float32 subnormals, +-5000 straddling the go3mf bucket bound 2147.48, float32 neighbours of +-2147.4836, float32 neighbours in [8,2148), 1e6..1e12, sub-micron neighbours; +-0 mixed in). dxf/svg: segment lists (zero-length, axis-parallel, connected polylines, duplicates, reversed; sizes 0, 1, 2..12, 20..90, 129..420) in seven magnitude classes through ToDXF/SaveDXF/DXF.Lines and ToSVG/SaveSVG/SVG.Line. go3mf-meshbuilder: the library's AddVertex driven directly on float32 corners. Non-trivial = at least one item; distinct by the full chunked input."
+	r.Rule = "3mf: triangle lists built from a vertex pool (shared, duplicate, degenerate, winding-reversed triangles; sizes 0, 1, 2..12, 20..90, 257..700; Write chunkings: one call, one per call, around 127/128/129/255/256/257, random 0..7) in eight magnitude classes (dyadic grid, arbitrary float64, tiny incl. float32 subnormals, +-5000 straddling the go3mf bucket bound 2147.48, float32 neighbours of +-2147.4836, float32 neighbours in [8,2148), 1e6..1e12, sub-micron neighbours; +-0 mixed in). dxf/svg: segment lists (zero-length, axis-parallel, connected polylines, duplicates, reversed; sizes 0, 1, 2..12, 20..90, 129..420) in seven magnitude classes through ToDXF/SaveDXF/DXF.Lines and ToSVG/SaveSVG/SVG.Line. collinear-chain: segments laid end to end along one line with bit-identical shared end points, repeated, reversed and zero-length members (horizontal, vertical, oblique on a dyadic grid) through all six DXF/SVG entry points. dxf-object-ops: histories of one DXF drawing object - NewDXF, then 0..30 random Line/Lines/Points/Triangle/Box calls (Points never / before / between / after the segment operations), Save - compared entity by entity (kind, layer, coordinates, order). go3mf-meshbuilder: the library's AddVertex driven directly on float32 corners. Non-trivial = at least one item; distinct by the full chunked input."
 	r.Trusted = append(r.Trusted,
 		"hand model coq/Io/Export.v of write3MF / NewDXF, SaveDXF, writeDXF / SVG.Line, SVG.Save tied by differential execution (cases_mf, cases_dxf, cases_svg) on files written by the real To3MF/ToDXF/ToSVG/SaveDXF/SaveSVG",
 		"model of go3mf MeshBuilder.AddVertex + newvec3IFromVec3 (amd64 float64->int32 conversion) tied by differential execution against the library (cases_mb)",
